@@ -52,6 +52,7 @@ static struct timer_op T1;         /* another timer in the heap */
 static _Bool VF_CFG_stop_possible; /* is_stop_ever_possible */
 static _Bool VF_CFG_nothrow;       /* is_nothrow_receiver_of_v<Receiver> */
 #define is_stop_ever_possible VF_CFG_stop_possible
+#define IFF(a, b) (((a) && (b)) || (!(a) && !(b)))   /* logical equivalence (a havocked _Bool need not be 0/1) */
 #define VF_TIME_ZERO ((int64_t)0)
 #define VF_MICROSECONDS(n) ((int64_t)(n) * 1000)
 #define VF_TIME_BOUND ((int64_t)1 << 62)
@@ -390,7 +391,6 @@ __CPROVER_ensures(G.dead && OP_UNTOUCHED)
 
 /* remove_timer_from_queue_and_complete_with_done: continuation scheduled by a winning remote cancellation.  C07-4: removes the
  * timer from the heap iff it has not elapsed (has not been popped), then done */
-#define IFF(a, b) (((a) && (b)) || (!(a) && !(b)))
 #define IN_HEAP_IFF_NOT_ELAPSED IFF(G.in_heap, !ELAPSED(OP.state_))
 void TM_remove_timer_from_queue_and_complete_with_done(struct operation_base* op)
 __CPROVER_requires(op == &OP.base && G.on_io_thread && G.role == ROLE_IO && VF_CFG_stop_possible && G.cancellable && G.stop_requested && G.completed == 0 && G.done == 0 && !G.dead \
